@@ -221,3 +221,41 @@ impl ReportDynImpl for ReportDynTarget {
         deps.decode(raw)
     }
 }
+
+// impl blocks for two instantiations of one generic target type (`Backend<Fast>`, `Backend<Slow>`):
+// the type as written in the impl header is not a valid expression path, the functions are reached as `Self::f`
+pub struct Fast;
+pub struct Slow;
+pub struct Backend<M>(pub core::marker::PhantomData<M>);
+#[entrait(QueueImpl, delegate_by = DelegateQueue, unimock = false)]
+pub trait Queue {
+    fn push(&self, a: u8) -> u8;
+}
+#[entrait]
+impl QueueImpl for Backend<Fast> {
+    fn push<D>(deps: &D, a: u8) -> u8 {
+        a
+    }
+}
+#[entrait]
+impl QueueImpl for Backend<Slow> {
+    fn push<D>(deps: &D, a: u8) -> u8 {
+        a + 1
+    }
+}
+#[entrait(QueueDynImpl, delegate_by = ref, unimock = false)]
+pub trait QueueDyn {
+    fn push_dyn(&self, a: u8) -> u8;
+}
+#[entrait(ref)]
+impl QueueDynImpl for Backend<Fast> {
+    fn push_dyn<D>(deps: &D, a: u8) -> u8 {
+        a
+    }
+}
+#[entrait(ref)]
+impl QueueDynImpl for (Backend<Slow>) {
+    fn push_dyn<D>(deps: &D, a: u8) -> u8 {
+        a + 1
+    }
+}
